@@ -1,5 +1,5 @@
-// Package ck is shared by the generated call-shape case packages of C19: case gating (a restarted run skips the cases
-// before C19_SKIP) and the argument objects (position i of every call carries object i; PyCallShapes.tla ArgSeq).
+// Package ck is shared by the generated call-shape case packages of C19: case gating (C19_ONLY=<id> runs one case per
+// process) and the argument objects (position i of every call carries object i; PyCallShapes.tla ArgSeq).
 package ck
 
 import (
@@ -7,10 +7,10 @@ import (
 	"github.com/goplus/lib/py"
 )
 
-var Skip int
+var Only = -1
 
 func Start(id int) bool {
-	if id < Skip {
+	if Only >= 0 && id != Only {
 		return false
 	}
 	println("G", id)
